@@ -151,7 +151,7 @@ let () =
          | ["tree"] ->
              (* structure differential + the model's own map property: in-order(L2) = the keys of L1's table *)
              let m = show_tree !l2 in
-             incr l2checks;
+             incr l2checks; bump "op:tree";
              if m <> impl then begin incr mism; bad := true;
                emit (Printf.sprintf "MISMATCH\t%s\t%d\ttree\timpl=%s\tl2=%s" !seq !idx impl m) end;
              if keys_of_tree !l2 <> List.map fst !s1.keys1 then begin incr l2diffs; bad := true;
